@@ -82,7 +82,7 @@ func TestC09Blocks(t *testing.T) {
 		case "near-epoch":
 			ts = int64(rapid.IntRange(-3000, 3000).Draw(t, "epochMs")) * 1e6
 		default:
-			ts = time.Now().Add(-time.Duration(rapid.IntRange(5, 60).Draw(t, "ago")) * time.Second).UnixNano()
+			ts = time.Now().Add(-time.Duration(rapid.IntRange(20, 120).Draw(t, "ago")) * time.Second).UnixNano()
 		}
 		owner := slot.NewFromUnixNano(ts).NextBpIndex(uint16(n)) // may be negative for pre-epoch instants
 		mk := func(k int, ts int64) *types.Block { return mkOn(t, nd, gen, k, ts) }
